@@ -46,7 +46,7 @@ def c10_schema(backend: str) -> Dict[str, Any]:
     }}
     s["classes"]["ns::Inner"] = {"header": hdr.replace("Obj", "Inner"), **lib, "members": {
         "inner_val": num("double", declared=True), "inner_n": num("int", declared=True), "inner_obj": obj(O, 1, declared=True),
-        "inner_vals": vec("double"), "inner_objs": objvec(O, 1)}}
+        "inner_vals": vec("double"), "inner_objs": objvec(O, 1), "inner_f": sch.field("int")}}
     s["classes"]["ns::Wrap"] = {"header": hdr.replace("Obj", "Wrap"), **lib, "deref_to": ["ns::Inner"], "members": {"own": num()}}
     s["classes"]["ns::Wrap2"] = {"header": hdr.replace("Obj", "Wrap2"), **lib, "deref_to": ["ns::Wrap"], "members": {"own2": num()}}
     # members reached THROUGH the dereference layers are declared on the wrapper type with a deref_count
@@ -54,6 +54,8 @@ def c10_schema(backend: str) -> Dict[str, Any]:
         s["classes"]["ns::Inner"]["members"]["inner_val"].setdefault("md", []).append(md_method(w, "inner_val", return_type="double", deref_count=dc))
         s["classes"]["ns::Inner"]["members"]["inner_n"].setdefault("md", []).append(md_method(w, "inner_n", return_type="int", deref_count=dc))
         s["classes"]["ns::Inner"]["members"]["inner_obj"].setdefault("md", []).append(md_method(w, "inner_obj", return_type=O + "*", deref_count=dc))
+        # a public DATA member reached through the dereference layers (read without call parentheses)
+        s["classes"]["ns::Inner"]["members"]["inner_f"].setdefault("md", []).append(md_method(w, "inner_f", return_type="int", deref_count=dc))
         # COLLECTION-returning members reached through the dereference layers
         s["classes"]["ns::Inner"]["members"]["inner_vals"].setdefault("md", []).append(md_method(w, "inner_vals", return_type_element="double", deref_count=dc))
         s["classes"]["ns::Inner"]["members"]["inner_objs"].setdefault("md", []).append(md_method(w, "inner_objs", return_type_element=O + "*", return_type_collection=f"std::vector<{O}*>", deref_count=dc))
@@ -139,6 +141,7 @@ def templates(s, backend) -> List[Tuple[str, str, str]]:
     for mth in ("w", "w2", "w_p", "w2_p", "w2_pp"):
         T += [(mth, "deref_value", f"j.{mth}().inner_val()"), (mth, "deref_int", f"j.{mth}().inner_n()"), (mth, "deref_then_member", f"j.{mth}().inner_obj().val()"),
               (mth, "deref_arith", f"(j.{mth}().inner_val() * 2 - j.{mth}().inner_n())")]
+        T += [(mth, "deref_data_member", f"j.{mth}().inner_f"), (mth, "deref_data_member_arith", f"(j.{mth}().inner_f * 2 + j.{mth}().inner_n())")]
         T += [(mth, "deref_collection_count", f"j.{mth}().inner_vals().Count()"), (mth, "deref_collection_sum", f"j.{mth}().inner_vals().Sum()"),
               (mth, "deref_collection_select", f"j.{mth}().inner_vals().Select(lambda v: v * 2)"), (mth, "deref_object_collection", f"j.{mth}().inner_objs().Select(lambda o: o.val())"),
               (mth, "deref_object_collection_where", f"j.{mth}().inner_objs().Where(lambda o: o.n() > 2).Count()")]
